@@ -34,6 +34,11 @@ def sii_image(serial):
     return bytes(img)
 
 
+class Exhausted(Exception):
+    """raised into the code under test when every address of the range has
+    been drawn: the caller's task fails, which C25 does not judge"""
+
+
 def execute(ch, conf):
     pre, workload = conf
     loop = vloop.VLoop()
@@ -46,17 +51,24 @@ def execute(ch, conf):
         ec.terminal_addr_range = (LO, HI)
         repeats = [0]
 
+        drawn = []
+
         def randint(a, b):
             if (a, b) != (LO, HI):
                 return a + (7 * len(m.transport.sent)) % (b - a + 1)
             dom = list(range(a, b + 1))
-            free = [d for d in dom if d not in ec.used_addresses]
-            used = [d for d in dom if d in ec.used_addresses]
-            if not free:
-                raise core.Internal("address range exhausted in harness")
-            opts = free + (used if repeats[0] < 1 else [])
+            # the harness remembers its own answers: an answer given before
+            # (or known to the master as used) may be repeated once in a
+            # row, then a new one has to come - whatever the code under
+            # test remembers
+            old = [d for d in dom if d in ec.used_addresses or d in drawn]
+            new = [d for d in dom if d not in old]
+            opts = new + (old if repeats[0] < 1 else [])
+            if not opts:
+                raise Exhausted("no address left in the shrunk range")
             v = opts[ch.choose(len(opts), "randint", [0] * len(opts))]
-            repeats[0] = repeats[0] + 1 if v in used else 0
+            repeats[0] = repeats[0] + 1 if v in old else 0
+            drawn.append(v)
             return v
         # every function of the random source is the harness's: randint
         # as above, randrange / choice as free explorer choices
@@ -87,6 +99,13 @@ def execute(ch, conf):
                     coros.append(tt.initialize(relative=-i))
             if workload in ("scan", "both"):
                 coros.append(ec.scan_serial_numbers())
+            if workload == "alloc":
+                # allocate first, use later: three concurrent requests
+                coros += [ec.find_free_address() for _ in range(3)]
+            if workload == "alloc-seq":
+                async def batch():
+                    return [await ec.find_free_address() for _ in range(3)]
+                coros.append(batch())
             fut = asyncio.gather(*coros, return_exceptions=True)
 
             def on_idle(master):
@@ -96,7 +115,7 @@ def execute(ch, conf):
                     master.deliver(c)
                     return True
                 return False
-            done = m.run(fut, max_frames=3000, on_idle=on_idle)
+            done = m.run(fut, max_frames=400, on_idle=on_idle)
             results = None
             if done:
                 results = [type(r).__name__ if isinstance(r, BaseException)
@@ -107,10 +126,18 @@ def execute(ch, conf):
                     not isinstance(fut.result()[-1], BaseException):
                 scan = sorted(fut.result()[-1].items())
             positions = [getattr(t, "position", None) for t in tobjs]
+            given = None
+            if done and workload.startswith("alloc"):
+                given = []
+                for r in fut.result():
+                    if isinstance(r, list):
+                        given += r
+                    elif not isinstance(r, BaseException):
+                        given.append(r)
         finally:
             loop.shutdown()
     return dict(done=done, results=results, writes=writes, final=final,
-                scan=scan, positions=positions)
+                scan=scan, positions=positions, given=given)
 
 
 def judge(conf, ch, obs, res):
@@ -134,6 +161,15 @@ def judge(conf, ch, obs, res):
         if addr in others:
             bad("address not in use by another terminal", (addr, others),
                 "assigned an address at which a terminal already answers")
+    for addr in obs.get("given") or []:
+        if not LO <= addr <= HI:
+            bad(f"address in [{LO}, {HI}]", addr, "address outside the range")
+        if addr in pre:
+            bad("address not in use by a terminal", (addr, pre),
+                "handed out an address at which a terminal already answers")
+    if obs.get("given") and len(set(obs["given"])) != len(obs["given"]):
+        bad("each address handed out once", obs["given"],
+            "address handed out twice")
     nz = [a for a in obs["final"] if a]
     if len(set(nz)) != len(nz):
         bad("distinct station addresses", obs["final"],
@@ -154,6 +190,8 @@ def configs(ctx):
                 continue
             for workload in ("init", "scan", "both"):
                 out.append((pre, workload))
+            if n == 2:
+                out += [(pre, "alloc"), (pre, "alloc-seq")]
     return out
 
 
@@ -163,9 +201,11 @@ def work(item, res):
     def on_exec(ch, obs):
         res.count("evaluations")
         res.count("transitions", len(ch.trace))
-        if obs["writes"]:
+        if obs["writes"] or obs.get("given"):
             res.nontrivial.add(core.digest([conf, ch.choices]))
         res.outcomes.add((tuple(obs["final"]), obs["done"]))
+        if not obs["done"]:
+            res.count("horizon_reached")
         judge(conf, ch, obs, res)
     n, capped = explore.dfs(lambda ch: execute(ch, conf), bound, on_exec,
                             max_execs=cap)
